@@ -864,4 +864,71 @@ theorem runOps_append (K : Kernels) (h1 h2 : List Op) : ∀ w : World, runOps K 
   | nil => intro w; rfl
   | cons op r ih => intro w; simp only [List.cons_append, runOps]; exact ih _
 
+/-! ## Refused calls -/
+
+theorem updMgr_error (w : World) (m : Nat) (f : Manager → Manager) (e : PyErr) (h : (updMgr w m f).1 = .error e) :
+    (updMgr w m f).2 = w := by
+  unfold updMgr at h ⊢
+  cases hm : w.mgrs[m]? with
+  | none => rfl
+  | some mg => rw [hm] at h; cases h
+
+theorem setDesign_error (K : Kernels) (m : Nat) (flow : Rat) (ft : FlowType) (w : World) (e : PyErr)
+    (h : (setDesign K m flow ft w).1 = .error e) : (setDesign K m flow ft w).2 = w := by
+  unfold setDesign at h ⊢
+  cases hm : w.mgrs[m]? with
+  | none => rfl
+  | some mg =>
+    rw [hm] at h
+    simp only at h ⊢
+    split_ifs at h ⊢ with h1
+    · rfl
+    · cases hg : mg.geom with
+      | none => rfl
+      | some ge =>
+        rw [hg] at h
+        simp only at h ⊢
+        split_ifs at h ⊢ with h2
+        all_goals rfl
+
+/-- A refused setter / set_design call (unknown pipe type, geometry type, fluid, flow type;
+    geometry missing; candidate generation raising; no such manager) leaves the whole world —
+    every slot of every manager, `pipe_type`, `geom_type`, design, search, heap — exactly as it was. -/
+theorem refused_call_is_identity_aux (K : Kernels) (op : Op) (w : World) (e : PyErr)
+    (hop : ∀ m, op ≠ .findDesign m) (h : (step K op w).1 = .error e) : (step K op w).2 = w := by
+  cases op with
+  | newManager => cases h
+  | setFluid m v =>
+    simp only [step] at h ⊢
+    split_ifs at h ⊢
+    · exact updMgr_error w m _ e h
+    · cases w.mgrs[m]? <;> rfl
+  | setGrout m v => exact updMgr_error w m _ e h
+  | setSoil m v => exact updMgr_error w m _ e h
+  | setPipe m pt v => exact updMgr_error w m _ e h
+  | setPipeType m pt =>
+    cases pt with
+    | none => simp only [step]; cases w.mgrs[m]? <;> rfl
+    | some pt => exact updMgr_error w m _ e h
+  | setBorehole m hh d dia =>
+    simp only [step] at h ⊢
+    cases hm : w.mgrs[m]? with
+    | none => rfl
+    | some mg => rw [hm] at h; cases h
+  | setSim m sp => exact updMgr_error w m _ e h
+  | setLoads m l => exact updMgr_error w m _ e h
+  | setGeomType m k =>
+    cases k with
+    | none => simp only [step]; cases w.mgrs[m]? <;> rfl
+    | some k => exact updMgr_error w m _ e h
+  | setGeom m g => exact updMgr_error w m _ e h
+  | setDesign m flow ft => exact setDesign_error K m flow ft w e h
+  | findDesign m => exact absurd rfl (hop m)
+
+/-- `find_design` refused by its own test (a slot empty / no design) leaves the world as it was. -/
+theorem findDesign_not_ready (K : Kernels) (m : Nat) (w : World) (mg : Manager) (hm : w.mgrs[m]? = some mg)
+    (hr : mg.ready = false) : findDesign K m w = (.error .valueError, w) := by
+  simp [findDesign, hm, hr]
+
+
 end GHEVerif.Api
